@@ -44,7 +44,7 @@ def main(argv=None) -> int:
         traceback.print_exc()
         print(f"MACHINERY-FAILURE property={pid}: unexpected exception in harness", file=sys.stderr)
         return 2
-    doc = rep.write()
+    doc = rep.write(dry=bool(a.replay))
     seen = set()
     for fid, what in rep.known:
         if fid not in seen:
